@@ -325,6 +325,35 @@ def minimise_blob(zp, seed, blob, tag_key):
     return blob
 
 
+def minimise_pipeline(zp, p, tag):
+    """Shrink the caption set of a failing pipeline while the same kind of failure persists."""
+    import copy
+    from .minimize import recipe_variants
+    if "recipe" not in p:
+        return p
+    key = tag.split(":")[0]
+
+    def bad(q):
+        r = zp.submit(0, {"kind": "pipeline_batch", "pipelines": [q]})["results"][0]
+        t = judge_pipeline(q, r)
+        return t is not None and t.split(":")[0] == key
+    deadline = time.time() + 40
+    cur = copy.deepcopy(p)
+    progress = True
+    while progress and time.time() < deadline:
+        progress = False
+        for rec in recipe_variants(cur["recipe"]):
+            if time.time() > deadline:
+                break
+            q = copy.deepcopy(cur)
+            q["recipe"] = rec
+            if bad(q):
+                cur = q
+                progress = True
+                break
+    return cur
+
+
 def write_replay(kind, body):
     d = os.path.join(VERIF, "replays")
     os.makedirs(d, exist_ok=True)
@@ -614,6 +643,8 @@ def _run(seed, tier, a, t0, evidence_path):
                 kf = next((f for f in known if f.get("status") == "open" and f.get("property") == "C20"
                            and f.get("match", {}).get("tag") == an["tag"] and f.get("match", {}).get("blob") in (None, blob)), None)
             else:
+                if kf_pipe is None:
+                    an["pipeline"] = minimise_pipeline(zp, an["pipeline"], an["tag"])
                 path = write_replay("pipeline", {"pipeline": an["pipeline"], "tag": an["tag"], "hash_seed": 0})
                 desc = an["tag"]
                 kf = kf_pipe
